@@ -1,6 +1,6 @@
 SPECIFICATION HSpec
 CONSTANTS
-  NS = 4
+  NS = 3
   MaxEv = 3
   Clocks = {0,1,2,3}
   Offsets <- OffsetsStd
